@@ -193,6 +193,7 @@ func (f *frame) staticCall(site siteT, callee *ssa.Function, args []Val, pos tok
 				arr := c.heapGet(f.heap, ekey, esort)
 				nv := c.fresh(ekey+"~sorted", arrayElemSort(esort))
 				c.heapSet(f.heap, ekey, ite(eq(sBase(sl), tNil), arr, store(arr, sBase(sl), nv)))
+				f.assumeSortedBy("less", sl, st.Elem(), nv, f.get(cc.Args[1]))
 				c.assumed["sort.Slice rearranges the elements of its slice argument only; its comparison function has no side effects (the rearranged contents are left unconstrained)"] = true
 				c.externs[key] = true
 				return Tuple{}
@@ -237,6 +238,9 @@ func (f *frame) staticCall(site siteT, callee *ssa.Function, args []Val, pos tok
 			arr := c.heapGet(f.heap, ekey, esort)
 			nv := c.fresh(ekey+"~sorted", arrayElemSort(esort))
 			c.heapSet(f.heap, ekey, ite(eq(sBase(sl), tNil), arr, store(arr, sBase(sl), nv)))
+			if len(cc.Args) == 2 {
+				f.assumeSortedBy("cmp", sl, st.Elem(), nv, f.get(cc.Args[1]))
+			}
 			c.assumed["slices.Sort / SortFunc / SortStableFunc rearrange the elements of their slice argument only; the comparison function has no side effects (the rearranged contents are left unconstrained)"] = true
 			c.externs[key] = true
 			return Tuple{}
